@@ -126,7 +126,7 @@ class SQLExecutor(object):
             **kwargs (dict, unused):
                 Unused keyword arguments.
         """
-        self.finish_transaction()
+        self.finish_transaction(*args)
 
         self._cursor.close()
         self._cursor = None
@@ -154,12 +154,28 @@ class SQLExecutor(object):
         if not self._latest_transaction:
             self.new_transaction()
 
-    def finish_transaction(self):
-        """Finish and commit a transaction."""
+    def finish_transaction(self, exc_type=None, exc_value=None,
+                           traceback=None):
+        """Finish a transaction.
+
+        The transaction will be committed, unless exception information is
+        provided, in which case it will be rolled back.
+
+        Args:
+            exc_type (type, optional):
+                The type of the exception that caused the transaction to
+                finish, if any.
+
+            exc_value (Exception, optional):
+                The exception that caused the transaction to finish, if any.
+
+            traceback (traceback, optional):
+                The traceback for the exception, if any.
+        """
         transaction = self._latest_transaction
 
         if transaction:
-            transaction.__exit__(None, None, None)
+            transaction.__exit__(exc_type, exc_value, traceback)
             self._latest_transaction = None
 
     def run_sql(self, sql, capture=False, execute=False):
